@@ -4,7 +4,7 @@
    user's function e_f, the norm e_pen, the least-squares solve e_newton, the
    Broyden update).  Every theorem holds for every E and every configuration. *)
 From Coq Require Import List Bool NArith ZArith QArith Qcanon.
-From XD Require Import model.Opt proofs.OptBase proofs.OptInner proofs.OptOuter proofs.OptThm proofs.OptClipQc.
+From XD Require Import model.Opt proofs.OptBase proofs.OptInner proofs.OptOuter proofs.OptThm proofs.OptHist proofs.OptClipQc.
 Import ListNotations.
 
 (* [within_tol E cf act r]: every target i with act_i = true has |r_i - value_i| < tol_i.
@@ -46,6 +46,25 @@ Proof.
   rewrite Hf in Hf'. inversion Hf'; subst r'. rewrite (Hw i ri v t Hi Hr Hv Ht) in Hn. discriminate.
 Qed.
 Print Assumptions C09_undefined_residual_not_accepted.
+
+(* Reconfiguration between calls.  The configuration (tolerances, target values,
+   weights, limits, max_step, optimize_log ...) is an explicit argument of every
+   operation of the model and the state keeps no copy of it.  [run_hist E fuel h s0]
+   is the state after a history h of (configuration, operation) pairs.  Whatever
+   configurations the earlier calls ran with, solve() returning normally means
+   "within the tolerances current at THIS call" ... *)
+Theorem C09_success_after_any_history : forall (E : env) fuel (h : list (cfg (eF E) * op)) s0 c n take_best b s',
+  solve E c fuel n take_best b (run_hist E fuel h s0) = Ok s' -> c_assert c = true ->
+  exists r, e_f E (knobs s') = Some r /\ within_tol E c (ta s') r.
+Proof. exact success_after_history. Qed.
+Print Assumptions C09_success_after_any_history.
+
+(* ... and the outcome of a call depends on the history only through the state reached *)
+Theorem C09_outcome_depends_on_current_config_only : forall (E : env) fuel h1 h2 s1 s2 c o,
+  run_hist E fuel h1 s1 = run_hist E fuel h2 s2 ->
+  run_op E c fuel o (run_hist E fuel h1 s1) = run_op E c fuel o (run_hist E fuel h2 s2).
+Proof. exact outcome_local. Qed.
+Print Assumptions C09_outcome_depends_on_current_config_only.
 
 (* solve() raising (any exception: not within tolerance, limit violation, the
    user's action, LinAlgError, assertion) with restore_if_fail: the active flags
